@@ -6,6 +6,7 @@ package vfmodel
 
 import (
 	"io"
+	"sync"
 )
 
 // provided by the executor (engine intercept) / by rt_native.go natively
@@ -348,7 +349,7 @@ func FormatInt(i int64, base int) string {
 	return string(itoa(uint64(i), uint64(base), false, 0))
 }
 func FormatUint(i uint64, base int) string { return string(itoa(i, uint64(base), false, 0)) }
-func Quote(s string) string               { return quote(s) }
+func Quote(s string) string                { return quote(s) }
 
 // ---- sort (insertion sort: stable, so ties show up as order dependence)
 
@@ -416,4 +417,38 @@ func sortCheck(n int, less func(i, j int) bool) {
 			}
 		}
 	}
+}
+
+// ---------------------------------------------------------------------------
+// sync.Pool: the objects put into a pool are kept per pool; Get may hand out
+// any pooled object or none of them (the runtime is free to drop pooled
+// objects at any time), so every possibility is a forked path.
+
+var pools = map[*sync.Pool][]interface{}{}
+
+func PoolGet(p *sync.Pool) interface{} {
+	items := pools[p]
+	k := vfPick(len(items) + 1)
+	if k < len(items) {
+		x := items[len(items)-1-k] // k = 0: the most recently pooled object
+		rest := make([]interface{}, 0, len(items)-1)
+		for i, it := range items {
+			if i != len(items)-1-k {
+				rest = append(rest, it)
+			}
+		}
+		pools[p] = rest
+		return x
+	}
+	if p.New != nil {
+		return p.New()
+	}
+	return nil
+}
+
+func PoolPut(p *sync.Pool, x interface{}) {
+	if x == nil {
+		return
+	}
+	pools[p] = append(pools[p], x)
 }
